@@ -218,6 +218,49 @@ impl<'a> Engine<'a> {
         }
     }
 
+    /// C05, model-free: runs after EVERY step, also when another oracle has already fired
+    pub fn wellformed<F: Fam, const N: usize>(&mut self, s: &Sut<F, N>, whr: &str) {
+        let r = fault::catch(|| {
+            let m = s.fr.get();
+            let mut problems: Vec<(&'static str, String)> = Vec::new();
+            let len = m.len();
+            if m.is_empty() != (len == 0) {
+                problems.push(("is_empty", format!("is_empty() = {} with len() = {}", m.is_empty(), len)));
+            }
+            if len > m.capacity() || m.capacity() != N {
+                problems.push(("len>capacity", format!("len() = {}, capacity() = {}, N = {}", len, m.capacity(), N)));
+            }
+            let mut seen: Vec<u32> = Vec::new();
+            let mut count = 0usize;
+            for k in m.iter() {
+                count += 1;
+                if count > N + 4 {
+                    break;
+                }
+                if !k.chk("iter() element") {
+                    continue;
+                }
+                if seen.contains(&k.class()) {
+                    problems.push(("duplicate-key", format!("iteration yields two elements of class {}", k.class())));
+                }
+                seen.push(k.class());
+            }
+            if count != len {
+                problems.push(("len-vs-iteration", format!("len() = {} but iter() yields {} elements", len, count)));
+            }
+            problems
+        });
+        match r {
+            Caught::Ok(p) => {
+                for (what, msg) in p {
+                    self.h.viol("C05", what, format!("{}: {}", whr, msg));
+                }
+            }
+            Caught::Panic(msg) => self.h.viol("C05", "observation-panics", format!("{}: len()/iter() panicked: {}", whr, msg)),
+            Caught::Injected(..) => {}
+        }
+    }
+
     pub fn sweep<F: Fam, const N: usize>(&mut self, s: &mut Sut<F, N>) {
         if !s.fr.canaries_ok() {
             self.h.viol("MEM", "canary", "memory outside the container was overwritten (canary damaged)".into());
@@ -1036,7 +1079,9 @@ impl<'a> Engine<'a> {
         }
         let mut total = 0;
         for s in suts.iter_mut() {
-            if !self.h.failed {
+            if self.h.failed {
+                self.wellformed(s, "after a step in which another oracle fired");
+            } else {
                 self.sweep(s);
             }
             total += s.model.len();
@@ -1049,12 +1094,49 @@ impl<'a> Engine<'a> {
         self.h.live_base = F::live_objects().unwrap_or(0);
         let mut suts: Vec<Sut<F, N>> = vec![Sut::new()];
         self.sweep(&mut suts[0]);
+        if N > 32 {
+            let target = N - self.rng.usize_below(9).min(N);
+            let mut classes: Vec<u32> = (1..=self.universe).collect();
+            self.rng.shuffle(&mut classes);
+            ledger::set_ctx(self.h.hist, 0, "prefill");
+            for c in classes.into_iter().take(target) {
+                let tag = self.h.tag();
+                let k = F::K::mk(c, tag);
+                let kid = k.id();
+                suts[0].fr.get_mut().insert(k);
+                suts[0].model.push(Ent { class: c, tag, kid, vid: 0, payload: 0 });
+            }
+            self.h.ops.push(format!("prefill with {} elements", target));
+            self.sweep(&mut suts[0]);
+        }
         // capacities beyond 32 / 64 need histories long enough to fill them
         let steps = if N > 32 { self.rng.length(3 * N, (5 * N).max(max_steps)) } else { self.rng.length(8, max_steps) };
+        let mut escaped = false;
         for _ in 0..steps {
-            self.one_op(&mut suts);
-            if self.h.failed || ledger::viol_total() > 0 {
+            match fault::catch(|| self.one_op(&mut suts)) {
+                Caught::Ok(()) => {}
+                Caught::Panic(msg) => {
+                    let (_, _, op) = ledger::ctx();
+                    let text = format!("`{}` panicked although the reference model says the call returns: {}", op, msg);
+                    self.h.viol("C07", "unexpected-panic", text.clone());
+                    if self.cx.prop != "C07" {
+                        let p = self.cx.prop.clone();
+                        self.h.viol(&p, "unexpected-panic", text);
+                    }
+                    escaped = true;
+                }
+                Caught::Injected(..) => {
+                    self.h.viol("C07", "harness", "an injected fault escaped its operation".into());
+                    escaped = true;
+                }
+            }
+            if escaped || self.h.failed || ledger::viol_total() > 0 {
                 break;
+            }
+        }
+        if escaped {
+            for mut s in suts.drain(..) {
+                s.fr.forget();
             }
         }
         let ops = self.h.ops.clone();
